@@ -532,6 +532,10 @@ var AllocHook func(e *Engine, st *State, p smt.T)
 
 // ApplyContract replaces a call by the callee's contract.
 func (e *Engine) ApplyContract(st *State, con *contract.Func, recv *Val, args []Val, resTypes []types.Type, pos token.Pos) ([]Val, error) {
+	if e.UsedContracts == nil {
+		e.UsedContracts = map[string]bool{}
+	}
+	e.UsedContracts[con.Key] = true
 	bound := map[string]Val{}
 	if recv != nil && con.Recv != "" {
 		bound[con.Recv] = *recv
